@@ -226,7 +226,7 @@ _ADD = {
  'C06': 'Histories also start after / consist of an upgrade attempt that died before the WebSocket accept or failed right after its probe; two upgrade sockets opened on one session before either handshake finished (every interleaving); on a polling-only server every shape of the upgrade request is followed by the full handshake; a directly opened WebSocket is raced against a poll issued on receipt of its OPEN packet with line-granular scheduling (2 deviations). A second session upgrades / opens over WebSocket while a write to a first, upgraded session is parked inside its socket (back-pressure). Pre-histories in which the earlier attempt ended by the peer hanging up after its probe.',
  'C07': 'Also: upgrades straddling the first PING, peers that talk but never PONG, peers stalled for ever between probe and UPGRADE, WebSocket opens whose accept failed, crowds of 3 / 5 silent sessions, sessions that are a later generation of the server (after a closed session, a rejected open, a disconnect() of everybody); a deep subset with free switching, two preemptions and line-granular scheduling inside _send_ping. A PONG that reaches the server twice (half an interval apart) restarts an interval of its own; the peer that answers every PING it is sent stays live. The quick grid has a cell with a grace period.',
  'C08': 'Early-reconnect scenarios (connect() again 3 s after the disconnect event; the second connection must last until its own read timeout and take nothing over from the first OPEN packet); write-fault scenarios (the k-th write of a batch fails once); a thread blocked on a real lock is reported as a deadlock. Paced servers (3..5 PINGs spaced ping_interval + 3/8 s apart, then CLOSE): the client must hear the server out. OPEN packets announcing 1500 / 500 ms. A legacy no-argument disconnect handler behind a pass-through decorator. The threaded client with a timeout of its own in websocket_extra_options.',
- 'C09': 'Also: writes that block inside the socket while frames keep arriving; the k-th write of a flush failing once (the wire must be a prefix of what was sent); sends made from inside the connect handler; connect() called again on a connected client. Caller query strings with blank values, value-less flags, repeated keys and latin-1 / reserved escapes are compared decoded byte for byte. Steady heartbeats of 3..6 cycles, each 3/8 s longer than ping_interval. Upgrade connections failing with OSError(no route) and TimeoutError (threaded client). An empty binary MESSAGE among the pushes. The caller order of transports decides the first contact.',
+ 'C09': 'Also: writes that block inside the socket while frames keep arriving; the k-th write of a flush failing once (the wire must be a prefix of what was sent); sends made from inside the connect handler; connect() called again on a connected client. Caller query strings with blank values, value-less flags, repeated keys and latin-1 / reserved escapes are compared decoded byte for byte. Steady heartbeats of 3..6 cycles, each 3/8 s longer than ping_interval. Upgrade connections failing with OSError(no route) and TimeoutError (threaded client). An empty binary MESSAGE among the pushes. The caller order of transports decides the first contact. PING data that decode to numbers; PING and PONG data compared as decoded values.',
  'C10': 'The same conversations also run over a virtual network with a one-way delay (1/16..7/16 s; delay line in the combined world) with heartbeat settings that put PINGs inside the handshake and the upgrade; one message of each of 13 payload shapes in each direction; bursts followed by a hang-up; a server write failing in the middle of a burst; greetings sent from the connect handler; differently configured servers constructed earlier in the process. A conversation in which the application calls connect() again on the connected client. The payload zoo includes a list of 200 numbers, a dict of 150 keys and a 300-character text. Conversations with a 6 s heartbeat idling two cycles.',
  'C11': 'A schedule search over two / three simultaneous opens with per-client handler duration and verdict; after each accepted open an open over the other transport; a cookie attribute callable that depends on the request and one that returns False; connect handlers raising TypeError; at the moment a 401 is handed to the gateway the rejected id must already be gone (observer inside the gateway callback). Histories of 1..3 rejections on one server (compressible / small / False values x Accept-Encoding none / gzip / deflate): every 401 decodes by its own headers to the value of its own handler call. Cookie kind x cors_credentials x origin policy {default, *, disabled} x outcome. The leading 2 / 3 / 4 / 7 options given by position in the documented order. An open after two sessions ended (ordinary / legacy / raising disconnect handlers). Connect outcomes 1 and 1.0. Connect outcomes that cannot be serialised and a 150-character refusal; the close reason of refused asyncio WebSocket opens is compared.',
  'C12': 'Also: allow_upgrades=False; session kinds "closing" (disconnect handler never returns), "suffixed" / "prefix" (a live sid plus / minus one character); header kind Upgrade: h2c at the quick tier; POSTs to a closing session must not produce events. Header kind with the upgrade headers in another letter case. The transports option given as a bare string; transport names that are proper substrings of the real ones. Refused requests naming a session whose PING is overdue and unnoticed.',
